@@ -188,6 +188,12 @@ rep0_ctx_send(void *arg, nni_aio *aio)
 	}
 	if (!p->busy) {
 		p->busy = true;
+		if (p->id == s->ctx.pipe_id) {
+			// The socket's own pending reply goes to this pipe too;
+			// it cannot be sent until we are done (rep0_pipe_send_cb
+			// raises this again).
+			nni_pollable_clear(&s->writable);
+		}
 		len     = nni_msg_len(msg);
 		nni_aio_set_msg(&p->aio_send, msg);
 		nni_pipe_send(p->pipe, &p->aio_send);
